@@ -1194,6 +1194,16 @@ class Interp:
     def binop(self, op, a, b, node, frame, inplace=False):
         if isinstance(a, Lazy) or isinstance(b, Lazy):
             raise Unsupported((a if isinstance(a, Lazy) else b).why)
+        from .stdlib import SStr, cps, mk_str
+        if isinstance(a, SStr) or isinstance(b, SStr):
+            if isinstance(op, ast.Add) and isinstance(a, (str, SStr)) and isinstance(b, (str, SStr)):
+                return mk_str(cps(a) + cps(b))
+            if isinstance(op, ast.Mult):
+                t, n = (a, b) if isinstance(a, SStr) else (b, a)
+                if is_sym(n):
+                    raise Unsupported('symbolic text repeated a symbolic number of times')
+                return mk_str(cps(t) * max(0, n))
+            raise Unsupported('operator %s on symbolic text at %s' % (type(op).__name__, self.here(node, frame)))
         a_b = V.is_bytes(a)
         b_b = V.is_bytes(b)
         if a_b or b_b:
@@ -1453,6 +1463,9 @@ class Interp:
             return a is b
         if a is None or b is None:
             return a is b
+        from .stdlib import SStr, str_eq
+        if isinstance(a, SStr) or isinstance(b, SStr):
+            return str_eq(a, b)
         if V.is_bytes(a) or V.is_bytes(b):
             if isinstance(a, str) or isinstance(b, str):
                 return False
